@@ -1,7 +1,7 @@
 (* run_case: the single entry point of the extracted model.  One case term in, one observation
    term out; the same function is evaluated with vm_compute for the extraction cross-check. *)
 From Coq Require Import String.
-From AvroV Require Import Base Varint Schema Bytes Names Codec Conforms Layout Validate Rabin SingleObject Resolve Compat Resolution Container Sink Settings Sexp.
+From AvroV Require Import Base Varint Schema Bytes Names Codec Conforms Layout Validate Rabin SingleObject Resolve Compat Resolution Container Sink Settings Sexp Lit SchemaJson PCF Parser.
 Local Open Scope string_scope.
 
 Definition run_fuel : nat := 300.
@@ -299,6 +299,33 @@ Definition run_case (x : sexp) : sexp :=
           | _ => obs_err
           end
         | _, _, _ => obs_bad
+        end
+      | _ => obs_bad
+      end
+    else if op =? "parse" then
+      (* (parse JSON) -> (ok SCHEMA) | (err) | (panic) *)
+      match args with
+      | [jx] =>
+        match json_of' jx with
+        | Some j => obs_of_res (fun s => [sexp_of_schema s]) (parse_schema run_fuel j)
+        | None => obs_bad
+        end
+      | _ => obs_bad
+      end
+    else if op =? "schema-json" then
+      (* (schema-json SCHEMA) -> (ok JSON strict01 PCF SPEC-PCF) *)
+      match args with
+      | [sx] =>
+        match schema_of conv_fuel sx with
+        | Some s =>
+          let j := ser s in
+          L [Sym "ok"; sexp_of_json j; Num (if strict j then 1 else 0);
+             match canonical_form run_fuel s with
+             | POk t => L [Sym "ok"; Hex t]
+             | PUnmodelled => L [Sym "unmodelled"]
+             | POutOfFuel => L [Sym "out-of-fuel"] end;
+             Hex (spec_canonical_form s)]
+        | None => obs_bad
         end
       | _ => obs_bad
       end
